@@ -614,14 +614,45 @@ def product_factors(node, via=None, vx=None):
 DISCR = {'Ok': 0, 'Err': 1, 'None': 0, 'Some': 1, 'Continue': 0, 'Break': 1}
 
 
-def reach_v(body, starts, stop=(), cut=()):
+def place_key(body, pl, depth=0):
+    """canonical name of a place read through shared references from a `&` parameter: (param, proj..); None if it is anything else.
+    The discriminant of such a place cannot change during the call, so two tests of it agree (reach_v)."""
+    cache = body.__dict__.setdefault('_c01_pk', {})
+    k = (pl['l'], repr(pl['p']))
+    if k in cache: return cache[k]
+    res = None
+    p = [x for x in pl['p'] if x != '*']
+    if all(isinstance(x, dict) and ('f' in x or 'dc' in x) for x in p) and depth < 10:
+        norm = tuple(('dc', x['dc']) if 'dc' in x else ('f', x['f']) for x in p)
+        l = pl['l']
+        if 1 <= l <= body.argc:
+            ty = body.locals[l].lstrip()
+            if ty.startswith('&') and not ty.startswith('&mut'): res = (l,) + norm
+        else:
+            ds = body.defs_of(l)
+            if len(ds) == 1 and not ds[0][2]['dst']['p']:
+                kind, bi, d = ds[0]; src = None
+                if kind == 'stmt':
+                    rv = d['rv']
+                    if rv['k'] == 'use' and rv['ops'][0]['k'] in ('copy', 'move'): src = rv['ops'][0]['pl']
+                    elif rv['k'] == 'ref' and not rv.get('mut'): src = rv['pl']
+                elif d['args'] and d['args'][0]['k'] in ('copy', 'move') and re.search(r'::(as_ref|deref|borrow)$', T.strip_generics_tail(d['r'] or d['f'])):
+                    src = d['args'][0]['pl']
+                if src is not None:
+                    base = place_key(body, src, depth + 1)
+                    if base is not None: res = base + norm
+    cache[k] = res
+    return res
+
+
+def reach_v(body, starts, stop=(), cut=(), env0=None):
     """forward reachability that knows which variant a Result/Option/ControlFlow local holds on the
     path (built by an aggregate, `from_residual`, anyhow::Ok, Try::branch of a known value; nested:
     Ok(None), Some(Ok(..))) and follows a switch on its discriminant only into the matching arm.
     Needed where a `?` inside an inlined helper / spliced closure hands its Err to an outer `?`, and
     where a combinator chain has been written out as a chain of matches.
     A known value is (variant, known value of the single payload | None)."""
-    seen = set(); out = set(); work = [(s, frozenset()) for s in starts if s not in stop]
+    seen = set(); out = set(); work = [(s, frozenset((env0 or {}).items())) for s in starts if s not in stop]
     def known(o, e):
         if o['k'] in ('copy', 'move') and not o['pl']['p']: return e.get(o['pl']['l'])
         return None
@@ -642,12 +673,16 @@ def reach_v(body, starts, stop=(), cut=()):
             elif rv['k'] == 'use' and rv['ops'][0]['k'] in ('copy', 'move'):
                 pl = rv['ops'][0]['pl']; src = e.get(pl['l']); pp = [x for x in pl['p'] if x != '*']
                 if not pp: val = src
-                elif isinstance(src, tuple) and src[0] != 'd' and len(pp) == 2 and isinstance(pp[0], dict) and pp[0].get('dc') == src[0] and isinstance(pp[1], dict) and pp[1].get('f') == '0': val = src[1]
+                elif isinstance(src, tuple) and src[0] not in ('d', 'dk') and len(pp) == 2 and isinstance(pp[0], dict) and pp[0].get('dc') == src[0] and isinstance(pp[1], dict) and pp[1].get('f') == '0': val = src[1]
             elif rv['k'] == 'discr':
                 src = e.get(rv['pl']['l']); pp = [x for x in rv['pl']['p'] if x != '*']
-                if isinstance(src, tuple) and src[0] != 'd':
+                if isinstance(src, tuple) and src[0] not in ('d', 'dk'):
                     if not pp: val = ('d', DISCR[src[0]])
-                    elif len(pp) == 2 and isinstance(pp[0], dict) and pp[0].get('dc') == src[0] and isinstance(src[1], tuple) and src[1][0] != 'd': val = ('d', DISCR[src[1][0]])
+                    elif len(pp) == 2 and isinstance(pp[0], dict) and pp[0].get('dc') == src[0] and isinstance(src[1], tuple) and src[1][0] not in ('d', 'dk'): val = ('d', DISCR[src[1][0]])
+                if val is None:
+                    # the discriminant of a place behind a `&` parameter: known if an earlier test of the same place was passed
+                    pk = place_key(body, rv['pl'])
+                    if pk is not None: val = ('d', e[('P',) + pk]) if ('P',) + pk in e else ('dk', pk)
             if val is None: e.pop(d['l'], None)
             else: e[d['l']] = val
         t = blk['term']; succs = body.succ(bi)
@@ -656,17 +691,26 @@ def reach_v(body, starts, stop=(), cut=()):
             src = known(t['args'][0], e) if t['args'] else None
             if T.FROM_RESIDUAL.search(tail): val = ('None' if nm.lstrip('<').startswith('std::option::Option') else 'Err', None)
             elif OK_CTOR_CALL.match(tail): val = ('Ok', src)
-            elif T.TRY_BRANCH.search(nm) and isinstance(src, tuple) and src[0] != 'd': val = ('Continue', src[1]) if _vclass(src[0]) == 'ok' else ('Break', None)
+            elif T.TRY_BRANCH.search(nm) and isinstance(src, tuple) and src[0] not in ('d', 'dk'): val = ('Continue', src[1]) if _vclass(src[0]) == 'ok' else ('Break', None)
             if d['p'] or val is None: e.pop(d['l'], None)
             else: e[d['l']] = val
-        elif t['k'] == 'switch' and t['d']['k'] != 'const' and not t['d']['pl']['p']:
+        learn = {}
+        if t['k'] == 'switch' and t['d']['k'] != 'const' and not t['d']['pl']['p']:
             v = e.get(t['d']['pl']['l'])
             if isinstance(v, tuple) and v[0] == 'd':
                 m = {val: tg for val, tg in t['ts']}
                 succs = [m.get(v[1], t['else'])]
+            elif isinstance(v, tuple) and v[0] == 'dk':
+                # passing the arm for value x of a stable place teaches its discriminant (not on targets shared by several values / the otherwise arm)
+                tgs = [tg for val, tg in t['ts']]
+                for val, tg in t['ts']:
+                    if tgs.count(tg) == 1 and tg != t['else']: learn[tg] = (('P',) + v[1], val)
         fe = frozenset(e.items())
         for s in succs:
-            if s not in stop and (bi, s) not in cut and not body.blocks[s]['cleanup']: work.append((s, fe))
+            if s not in stop and (bi, s) not in cut and not body.blocks[s]['cleanup']:
+                if s in learn:
+                    e2 = dict(e); e2[learn[s][0]] = learn[s][1]; work.append((s, frozenset(e2.items())))
+                else: work.append((s, fe))
     return out
 
 
@@ -1652,6 +1696,22 @@ def init_check(ctx, K, short, kind, inits, Lp):
                     # an absent linear part is not an error
                     ctx.check(any(bool(reach_v(body, [nn]) & body.strict_ok_exits()) for sb, sm, nn in tests), R + '.linear-none/ok', 'T-GUARD', fn, 'absent linear part leads to an error', body.site(bi))
                     continue
+            if n[0] == 'proj' and n[1][0] == 'call' and n[1][1] == 'evaluate' and 'v1::Linear as evaluate::Evaluate' in n[1][2] and len(entries) == 1 \
+                    and [f for a, f in n[2] if a == 'tuple'] == ['0'] and peel(n[1][3][1]) == ('place', 2, []):
+                # "absent part ≡ the part's default": one unconditional `part.evaluate(state)?` whose receiver is the payload on the Some side and a fresh
+                # `Linear::default()` on the None side (`self.linear.as_ref().unwrap_or(&Linear::default())`).  The default message has constant 0.0 and no
+                # terms (derived Default), so by the Linear kernel's own rules it evaluates to (0.0, {}).
+                ev = n[1]; ralts = list(recv_alts(ev[3][0], ev[4])); HE = ev[4]
+                pay = [(x, b) for x, b in ralts if self_fields(x) is not None and same_path([f for f in self_fields(x) if not f[0].endswith('Option::Some')], [('v1::Quadratic', 'linear')])]
+                dfl = [(x, b) for x, b in ralts if x[0] == 'call' and x[1] == 'default' and re.match(r'^<v1::Linear as std::default::Default>::default$', T.strip_generics_tail(x[2]))]
+                if len(ralts) == 2 and len(pay) == 1 and len(dfl) == 1 and HE not in Lp[4]:
+                    bp, bd = pay[0][1], dfl[0][1]
+                    for sb, sm, nn in tests:
+                        if def_in_force(body, bp, sm, {bd}, HE) and not def_in_force(body, bp, nn, {bd}, HE) and def_in_force(body, bd, nn, {bp}, HE) and not def_in_force(body, bd, sm, {bp}, HE):
+                            some_ok = none_ok = True
+                            ctx.check(bool(reach_v(body, [nn]) & body.strict_ok_exits()), R + '.linear-none/ok', 'T-GUARD', fn, 'absent linear part leads to an error', body.site(bd))
+                            break
+                    if some_ok: continue
             if n[0] == 'proj' and n[1][0] == 'call' and n[1][1] == 'evaluate' and 'v1::Linear as evaluate::Evaluate' in n[1][2]:
                 ev = n[1]
                 if [f for a, f in n[2] if a == 'tuple'] == ['0'] and ('v1::Quadratic', 'linear') in T.expr_fields(ev[3][0]) and peel(ev[3][1]) == ('place', 2, []) \
@@ -1731,7 +1791,9 @@ def oneof_rules(ctx):
     R = 'C01.oneof'
     body = ctx.method(R + '/anchor', 'v1::Function', 'evaluate', trait='Evaluate')
     if body is None: return
-    body = opened(ctx, body)
+    # existing inherent helpers (get_constant, ..) are opened here as well: what they contribute is judged where it is used, with the variant the
+    # surrounding arm has already established (reach_v knows the discriminants of places behind `&self` that were tested on the path)
+    body = opened(ctx, body, helpers=True)
     en = ctx.F.adt('v1::function::Function')
     if en is None:
         ctx.lost(R, 'enum v1::function::Function'); return
@@ -1744,7 +1806,16 @@ def oneof_rules(ctx):
     ctx.check(len(tests) >= 1, R + '/option-test', 'T-BRANCHFX', body.name, 'no test on self.function', body.site())
     if not tests: return
     sb, some_t, none_t = tests[0]
-    nr = T.reach_cp(body, [none_t]) - T.reach_cp(body, [some_t])
+    # path-sensitive sides: blocks reachable when self.function is None, and not when it is Some (the same place tested again later agrees)
+    fkey = None
+    tsw = body.blocks[sb]['term']
+    for k2, b2, d in body.defs_of(tsw['d']['pl']['l']):
+        if k2 == 'stmt' and d['rv']['k'] == 'discr' and place_key(body, d['rv']['pl']) is not None: fkey = ('P',) + place_key(body, d['rv']['pl'])
+    feasible = reach_v(body, [0])
+    if fkey is not None: nr = (reach_v(body, [none_t], env0={fkey: 0}) - reach_v(body, [some_t], env0={fkey: 1})) & feasible
+    else: nr = T.reach_cp(body, [none_t]) - T.reach_cp(body, [some_t])
+    def flat_alts(n, bb):            # alternatives that are defined on no feasible path are not alternatives
+        return [(x, b) for x, b in all_alts(n, bb) if b in feasible]
     # unset oneof => (0.0, empty set), no error
     # on dataflow: among the pairs an Ok-exit may return there is one whose value is the constant 0.0 *as defined on the None side only*
     # and whose set is a fresh BTreeSet.  Covers a `None => (0.0, {})` arm, `let .. else { return Ok((0.0, {})) }`, and a default
@@ -1777,7 +1848,7 @@ def oneof_rules(ctx):
                 pl = d['rv']['pl']; fsp = fields_of_place(pl)
                 lty = body.locals[pl['l']].replace('&', '').replace("'_ ", '').strip()
                 on_enum = any('function::Function' in a for a, f in fsp) or (not fsp and lty.endswith('v1::function::Function')) or any(isinstance(p, dict) and p.get('dc') == 'Some' for p in pl['p'])
-                if on_enum and (bi != sb or len(t['ts']) > 1): sw = (bi, t)
+                if on_enum and (bi != sb or len(t['ts']) > 1) and (sw is None or body.dominates(bi, sw[0])): sw = (bi, t)        # the outermost one (opened helpers test the oneof again)
     if sw is None:
         # the Option and the enum may be tested by one switch chain; look for any switch with >= 3 targets
         for bi in sorted(body.live):
@@ -1796,9 +1867,20 @@ def oneof_rules(ctx):
     for c in E:
         recv[c.bb] = [(variant_payload(a), abb) for a, abb in recv_alts(vx.op(c.args[0]), c.bb)]
     regs = {}
+    pkey = None
+    for k2, b2, d in body.defs_of(t['d']['pl']['l']):
+        if k2 == 'stmt' and d['rv']['k'] == 'discr' and place_key(body, d['rv']['pl']) is not None: pkey = ('P',) + place_key(body, d['rv']['pl'])
+    def arm_env(name):
+        v = [x for x in en['variants'] if x['name'] == name][0]
+        e0 = {pkey: v['discr']}
+        if fkey is not None: e0[fkey] = 1
+        return e0
     for name, tg in targets.items():
-        others = [x for n2, x in targets.items() if n2 != name]
-        regs[name] = T.reach_cp(body, [tg]) - set().union(*[T.reach_cp(body, [x]) for x in others if x != tg]) if others else T.reach_cp(body, [tg])
+        others = [(n2, x) for n2, x in targets.items() if n2 != name]
+        if pkey is not None:
+            regs[name] = (reach_v(body, [tg], env0=arm_env(name)) - set().union(*[reach_v(body, [x], env0=arm_env(n2)) for n2, x in others])) & feasible
+        else:
+            regs[name] = T.reach_cp(body, [tg]) - set().union(*[T.reach_cp(body, [x]) for n2, x in others if x != tg]) if others else T.reach_cp(body, [tg])
     arm_calls = {}
     for name, tg in targets.items():
         reg = regs[name]
@@ -1811,6 +1893,9 @@ def oneof_rules(ctx):
                 if b2 in reg and st['rv']['k'] == 'agg' and st['rv']['adt'] == 'tuple' and len(st['rv']['ops']) == 2:
                     ex = T.expr(body, st['rv']['ops'][0])
                     if any(f == '0' and 'Constant' in a for a, f in T.expr_fields(ex)): okc = True
+            # .. or by dataflow: a returned pair whose value has the Constant payload as the alternative defined in this arm (e.g. through an opened helper)
+            for n, bb in payloads:
+                if n[0] == 'agg' and n[1] == 'tuple' and len(n[2]) == 2 and any(variant_payload(x) == 'Constant' and (b2 in reg or bb in reg) for x, b2 in flat_alts(n[2][0], bb)): okc = True
             ctx.check(okc and not mine and not stray, R + '/arm/' + name, 'T-BRANCHFX', body.name, 'Constant arm does not return its payload', body.site(tg))
         else:
             c = mine[0] if len(mine) == 1 else None
@@ -1840,8 +1925,8 @@ def oneof_rules(ctx):
     # ... and it fails only when the evaluation of a payload failed
     decide(ctx, R + '/only-payload-errors', 'T-ERRFLOW', body,
            [('the dispatcher can fail although no payload evaluation failed', body.site(e)) for e in other_failures(body, E)])
-    arith_ops = [b2 for b2, st2 in body.stmts() if st2['rv']['k'] in ('bin', 'un') and st2['rv'].get('ty') == 'f64']
-    arith_ops += [c.bb for c in body.calls if T.ARITH_CALL.match(c.name) or T.ASSIGN_CALL.match(c.name)]
+    arith_ops = [b2 for b2, st2 in body.stmts() if st2['rv']['k'] in ('bin', 'un') and st2['rv'].get('ty') == 'f64' and b2 in feasible]
+    arith_ops += [c.bb for c in body.calls if (T.ARITH_CALL.match(c.name) or T.ASSIGN_CALL.match(c.name)) and c.bb in feasible]
     ctx.check(not arith_ops, R + '/no-arithmetic', 'T-BRANCHFX', body.name, 'the dispatcher modifies the value', body.site(arith_ops[0]) if arith_ops else body.site())
 
 
@@ -1873,6 +1958,10 @@ def variant_payload(n):
     m = re.search(r'function::Function::(\w+)$', a)
     if m and f == '0' and all(x[0].endswith('Option::Some') or x is fs[-1] for x in fs[1:]): return m.group(1)
     return None
+
+
+def all_alts(n, bb):
+    return flat_alts(n, bb)
 
 
 def flat_alts(n, bb):
